@@ -5,7 +5,8 @@ import os
 import sys
 
 sys.path.insert(0, os.path.dirname(os.path.abspath(__file__)))
-from props import PROPS, NOT_APPLICABLE, HOOK_COMMITS  # noqa: E402
+from props import PROPS as ALL_PROPS, NOT_APPLICABLE, HOOK_COMMITS, READY  # noqa: E402
+PROPS = {k: v for k, v in ALL_PROPS.items() if k in READY}
 
 VERIF = os.path.dirname(os.path.dirname(os.path.abspath(__file__)))
 props = [json.loads(l) for l in open(os.path.join(VERIF, "properties.jsonl"))]
